@@ -79,12 +79,35 @@ func TestVerifC06Framing(t *testing.T) {
 		tlist = append(tlist, k)
 	}
 	sort.Ints(tlist)
+	// the stored payload length of a candidate batch is measured through the public API only (a scratch log): the record
+	// Put writes is uvarint(payload length) ++ payload, and Put reports the record's total size
+	scratch, err := NewLinkedLog(filepath.Join(dir, "scratch-log"))
+	if err != nil {
+		t.Fatal(err)
+	}
 	plenOf := func(es []*OffsetAndSizeAndSlot) int {
-		payload, err := createIndexesPayload(es)
+		cp := make([]*OffsetAndSizeAndSlot, len(es))
+		for i := range es {
+			c := *es[i]
+			cp[len(es)-1-i] = &c
+		}
+		total := 0
+		_, err := scratch.Put(
+			func(pk solana.PublicKey) (indexes.OffsetAndSize, error) { return indexes.OffsetAndSize{}, nil },
+			func(pk solana.PublicKey, offset uint64, ln uint32) error { total = int(ln); return nil },
+			KeyToOffsetAndSizeAndBlocktime{Key: key, Values: cp},
+		)
 		if err != nil {
 			t.Fatal(err)
 		}
-		return len(payload) + 9
+		w := 1
+		if total-1 >= 128 {
+			w = 2
+		}
+		if total-2 >= 16384 {
+			w = 3
+		}
+		return total - w
 	}
 	for _, target := range tlist {
 		// directed fit: random (incompressible) entries; add / drop entries and widen / narrow one
@@ -105,7 +128,7 @@ func TestVerifC06Framing(t *testing.T) {
 				es = es[:len(es)-1]
 			default:
 				e := es[rng.Intn(len(es))]
-				w := sizeOfUvarint(e.Offset) + d
+				w := frUvarintLen(e.Offset) + d
 				if w < 1 {
 					w = 1
 				}
@@ -192,4 +215,13 @@ func TestVerifC06Framing(t *testing.T) {
 	}
 	t.Logf("framing: %d records written, %d target lengths not reached after %d tries", len(puts), missed, tries)
 	_ = os.Remove
+}
+
+func frUvarintLen(x uint64) int {
+	n := 1
+	for x >= 0x80 {
+		x >>= 7
+		n++
+	}
+	return n
 }
